@@ -195,10 +195,11 @@ func (c *Cluster) memberConfig(port, mlPort int) *config.Config {
 	mc.AdvertiseAddr = "127.0.0.1"
 	mc.AdvertisePort = mlPort
 	if cc.FastFailureDetection {
-		mc.ProbeInterval = 100 * time.Millisecond
-		mc.ProbeTimeout = 50 * time.Millisecond
-		mc.SuspicionMult = 2
-		mc.GossipInterval = 20 * time.Millisecond
+		// fast, but not so fast that a loaded machine produces false suspicions all the time
+		mc.ProbeInterval = 200 * time.Millisecond
+		mc.ProbeTimeout = 150 * time.Millisecond
+		mc.SuspicionMult = 3
+		mc.GossipInterval = 30 * time.Millisecond
 		mc.PushPullInterval = 2 * time.Second
 		mc.RetransmitMult = 3
 	}
